@@ -77,14 +77,14 @@ FP_RULES = [
 ]
 
 
-def build_field_propagator(ctx):
+def build_field_propagator_with(ctx, rules):
     helpers = []
     for nm, body_rules in (("delta_intersection", [Rule(r"driver_\.delta_intersection\(\)", "self->driver_->delta_intersection_", 1, note="driver option")]),
                            ("minimum_substep", [Rule(r"driver_\.minimum_step\(\)", "self->driver_->minimum_step_", 1, note="driver option")]),
                            ("bump_distance", [Rule(r"this->delta_intersection\(\)", "FPR_delta_intersection(self)", 1, note="member call"), Rule(r"real_type\(0\.1\)", "((real_type)0.1)", 1, note="functional cast")])):
         pc = ctx.func(FP, r"CELER_FUNCTION real_type FieldPropagator<DriverT, GTV>::%s\(\) const" % nm, body_rules, name="FieldPropagator::" + nm)
         helpers.append("static real_type FPR_%s(FieldPropagator const* self)\n{%s}\n" % (nm, pc.body))
-    pc = ctx.func(FP, r"^FieldPropagator<DriverT, GTV>::operator\(\)\(real_type step\) -> result_type", FP_RULES, name="FieldPropagator::operator()(real_type)")
+    pc = ctx.func(FP, r"^FieldPropagator<DriverT, GTV>::operator\(\)\(real_type step\) -> result_type", rules, name="FieldPropagator::operator()(real_type)")
     return (HDR + FP_MODEL + "".join(helpers) + """
 Propagation FPR_call(FieldPropagator* self, real_type step)
 __CPROVER_requires(self != 0 && self->driver_ != 0 && self->geo_ != 0)
@@ -116,8 +116,51 @@ void h_fpr(void)
 """)
 
 
+def build_field_propagator(ctx):
+    return build_field_propagator_with(ctx, FP_RULES)
+
+
+# ---- unbounded variant: the do-while loop closed by a loop contract (no iteration / substep bound) ------------------
+FP_LC_RULES = []
+for r in FP_RULES:
+    if isinstance(r, Rule) and r.pat.startswith(r"auto remaining_substeps"):
+        FP_LC_RULES.append(Rule(r"auto remaining_substeps = this->max_substeps\(\);", "short remaining_substeps = self->driver_->max_substeps_; g_moves = 0; g_niter = 0;", 1, note="auto -> short int; ghost counters"))
+    elif isinstance(r, Rule) and r.pat.startswith(r"CELER_ASSERT\(soft_zero\(distance"):
+        FP_LC_RULES.append(Rule(r"CELER_ASSERT\(soft_zero\(distance\(state_\.pos, geo_\.pos\(\)\)\)\);", "g_niter = (g_niter < 2 ? g_niter + 1 : 2); /* ghost: iterations started, saturating at 2 */ /* NOT PROMOTED: CELER_ASSERT(soft_zero(distance(state_.pos, geo_.pos()))) -- position bookkeeping of the geometry, numerics */", 1, note="in-body assert not promoted (geometry/ODE position consistency is numeric); ghost iteration counter"))
+    else:
+        FP_LC_RULES.append(r)
+FP_LC_RULES += [
+    Rule(r"--remaining_substeps;", "--remaining_substeps; ++g_moves; /* ghost */", "*", note="ghost: count of completed internal substeps"),
+    LoopContracts([
+        "    __CPROVER_assigns(remaining, remaining_substeps, result.distance, result.boundary, self->state_, self->geo_->on_boundary, self->geo_->pos, g_moves, g_niter)\n"
+        "    __CPROVER_loop_invariant(remaining > 0 && result.distance >= 0 && result.looping == 0 && (result.boundary == 0 || result.boundary == 1) && result.boundary == self->geo_->on_boundary)\n"
+        "    __CPROVER_loop_invariant(remaining_substeps >= 1 && remaining_substeps <= self->driver_->max_substeps_ && g_moves >= 0 && g_moves <= 30000 && g_moves + remaining_substeps == self->driver_->max_substeps_)\n"
+        "    __CPROVER_loop_invariant(g_niter == 0 ==> (result.distance == 0 && remaining == step))\n"]),
+]
+
+
+def build_field_propagator_lc(ctx):
+    src = build_field_propagator_with(ctx, FP_LC_RULES)
+    src = src.replace("int g_iters;      /* ghost: number of loop iterations executed */", "int g_moves; unsigned long g_niter;   /* ghost: completed internal substeps; loop iterations started (0, 1, or 2 = more) */")
+    src = src.replace("self->driver_->max_substeps_ >= 1 && self->driver_->max_substeps_ <= MAXSUB)", "self->driver_->max_substeps_ >= 1 && self->driver_->max_substeps_ <= 30000)   /* any substep budget */")
+    src = src.replace("__CPROVER_assigns(self->state_, self->geo_->on_boundary, self->geo_->pos, g_iters)", "__CPROVER_assigns(self->state_, self->geo_->on_boundary, self->geo_->pos, g_moves, g_niter)")
+    src = src.replace("(g_iters >= self->driver_->max_substeps_ && __CPROVER_return_value.distance < step))", "(g_moves == self->driver_->max_substeps_ && __CPROVER_return_value.distance < step))")
+    src = src.replace("__CPROVER_ensures(g_iters == 1 ==> __CPROVER_return_value.distance <= step)", "__CPROVER_ensures(g_niter == 1 ==> __CPROVER_return_value.distance <= step)")
+    if "g_iters" in src:
+        from vkit.extract import ExtractionDrift
+        raise ExtractionDrift("g_iters left in the loop-contract variant")
+    return src
+
+
 UNITS = [
-    Unit("c08_field_propagator", build_field_propagator, "h_fpr", enforce="FPR_call", unwind=4, timeout=900, object_bits=12, backend=["sat", "cvc5"], defines=["MAXSUB=2"],
+    Unit("c08_field_propagator_lc", build_field_propagator_lc, "h_fpr", enforce="FPR_call", loop_contracts=True, timeout=900, object_bits=12, backend=["sat", "kissat", "cvc5"],
+         replace=["GEO_set_dir", "GEO_find_next_step", "GEO_move_internal", "GEO_move_to_boundary", "DRV_advance", "UT_make_chord", "UT_is_intercept_close", "UT_make_unit_vector", "UT_axpy"],
+         must_have=[r"FPR_call.postcondition", r"celer_assert", r"celer_ensure", r"DRV_advance.precondition", r"GEO_find_next_step.precondition", r"loop_invariant_step"],
+         checks=["--bounds-check", "--pointer-check"],
+         assumptions=["field driver advance(): 0 < step <= requested (its own ENSURE); geometry calls: find_next_step does not move, move_internal leaves the boundary, move_to_boundary lands on it (assumed navigation contracts)",
+                      "chord / unit vector / intercept test / update_length are uninterpreted (any values); NOT PROMOTED: the two soft_zero/soft_equal asserts and 'distance <= step up to rounding'", "termination of the substep loop not decided (no variant)"],
+         note="FieldPropagator control logic for ANY substep budget and any number of iterations (loop contract): distance > 0; returned boundary flag == geometry on-boundary state; looping only with the whole substep budget spent and distance < step; a step completed in a single iteration never exceeds the requested step; callee preconditions (advance step > 0, find_next_step distance > 0) hold in every iteration"),
+    Unit("c08_field_propagator", build_field_propagator, "h_fpr", enforce="FPR_call", unwind=4, tier="thorough", timeout=900, object_bits=12, backend=["sat", "cvc5"], defines=["MAXSUB=2"],
          bounded="substep budget (max_substeps) <= 2 and at most 3 loop iterations in total: the do-while loop is unwound; the driver, geometry and vector numerics are replaced by contracts / uninterpreted functions",
          replace=["GEO_set_dir", "GEO_find_next_step", "GEO_move_internal", "GEO_move_to_boundary", "DRV_advance", "UT_make_chord", "UT_is_intercept_close", "UT_make_unit_vector", "UT_axpy"],
          must_have=[r"FPR_call.postcondition", r"celer_assert", r"celer_ensure", r"DRV_advance.precondition", r"GEO_find_next_step.precondition", r"unwinding assertion"],
@@ -192,10 +235,29 @@ void h_fda(void)
 """)
 
 
+FD_LC_RULES = FD_RULES + [LoopContracts([
+    "    __CPROVER_assigns(h, output, curve_length, succeeded, remaining_steps, g_curve)\n"
+    "    __CPROVER_loop_invariant(h > 0 && !succeeded && remaining_steps >= 1 && remaining_steps <= self->options_->max_nsteps)\n"
+    "    __CPROVER_loop_invariant(curve_length >= 0 && curve_length == g_curve && curve_length < end_curve_length)\n"])]
+
+
+def build_accurate_advance_lc(ctx):
+    pc = ctx.func(FD, r"^CELER_FUNCTION DriverResult FieldDriver<StepperT>::accurate_advance\(", FD_LC_RULES, name="FieldDriver::accurate_advance")
+    src = build_accurate_advance(ctx)
+    k = src.index("{", src.index("__CPROVER_ensures(__CPROVER_return_value.step > 0"))
+    e = src.index("void h_fda(void)")
+    src = src[: k] + "{" + pc.body + "}\n" + src[e:]
+    return src.replace("self->options_->max_nsteps <= MAXN)", "self->options_->max_nsteps <= 30000)   /* any step budget */").replace("(<= MAXN for this bounded unit)", "")
+
+
 UNITS += [
-    Unit("c08_accurate_advance", build_accurate_advance, "h_fda", enforce="FD_accurate_advance", replace=["FD_integrate_step"], unwind=5, timeout=600, object_bits=10, backend=["sat", "cvc5"], defines=["MAXN=3"],
+    Unit("c08_accurate_advance", build_accurate_advance, "h_fda", enforce="FD_accurate_advance", replace=["FD_integrate_step"], unwind=5, tier="thorough", timeout=600, object_bits=10, backend=["sat", "cvc5"], defines=["MAXN=3"],
          bounded="max_nsteps <= 3 (do-while loop unwound)",
          must_have=[r"FD_accurate_advance.postcondition", r"celer_assert", r"celer_ensure", r"FD_integrate_step.precondition", r"unwinding assertion"], checks=["--bounds-check", "--pointer-check"],
          assumptions=["integrate_step covers 0 < step <= h and proposes a positive step (its ENSUREs; RK numerics not decided)", "NOT PROMOTED: curve_length <= step up to rounding"],
          note="FieldDriver::accurate_advance: 0 < reported step <= requested and <= the curve length actually integrated (a track that ran out of integration steps is not reported as having completed the step); h > 0 at every integrate_step call"),
+    Unit("c08_accurate_advance_lc", build_accurate_advance_lc, "h_fda", enforce="FD_accurate_advance", replace=["FD_integrate_step"], loop_contracts=True, timeout=900, backend=["sat", "kissat", "cvc5"],
+         must_have=[r"FD_accurate_advance.postcondition", r"celer_assert", r"celer_ensure", r"FD_integrate_step.precondition", r"loop_invariant_step"], checks=["--bounds-check", "--pointer-check"],
+         assumptions=["integrate_step covers 0 < step <= h and proposes a positive next step (its own ENSUREs; RK numerics not decided)", "products uninterpreted (non-negative for non-negative factors)", "NOT PROMOTED: curve_length <= step up to rounding", "termination by the step budget not decided (no variant)"],
+         note="FieldDriver::accurate_advance for ANY step budget (loop contract): every trial step h is positive (integrate_step's precondition), the accumulated curve length is exactly the sum of the integrated substeps, and the reported step is > 0, <= requested and <= the curve length actually integrated"),
 ]
